@@ -112,6 +112,7 @@ type Path struct {
 	locks      map[*Value]int
 	lockOwner  map[*Value]int
 	onceDone   map[*Value]bool
+	onceRunning map[*Value]bool
 	wgCount    map[*Value]int
 	syncMaps   map[*Value]*MapV
 	atomicVals map[*Value]Value
